@@ -315,7 +315,11 @@ theorem chain_susp_clear {ops : Ops W} {needs : Local W → Bool} (L : LawsEp op
 
 /-! ### one step of the two epoll traversals on an active connection -/
 
-theorem isRead_cases (e : Eli) : e.isRead = true ↔ e = .read := by cases e <;> decide
+theorem isRead_cases' (e : Eli) : e.isRead = true ↔ e = .read := by cases e <;> decide
+/-- the eready drop test of /repo is the exact one (regenerated; `decide` fails if the source uses the mask test) -/
+theorem readWait_exact : ereadyDropExactRead = true := by decide
+theorem isRead_cases (e : Eli) : readWait e = true ↔ e = .read := by
+  unfold readWait; rw [readWait_exact]; exact isRead_cases' e
 theorem isCleanup_cases (e : Eli) : e.isCleanup = true ↔ e = .cleanup := by cases e <;> decide
 
 theorem finishCH_lists (d : Daemon W) (c : Conn W) (r : ChRes W) :
